@@ -710,7 +710,10 @@ def corr_campaign(res, harness, driver, cases, flavour, spec=None):
             if not ok:
                 res.failures.append({"key": c["key"], "lines": [c["line"][:4000]], "expected": exp, "observed": (ri or "")[:2000],
                                      "note": "implementation (%s build) vs specification" % flavour})
-        if ri != rm:
+        if rm == "err unknown-op" and ri != rm and res.broken:
+            # the function could not be translated on this tree (already a broken obligation): implementation vs oracle only
+            res.extra["cases_without_model"] = res.extra.get("cases_without_model", 0) + 1
+        elif ri != rm:
             res.broken.append(("correspondence %s: implementation != model" % c["key"],
                                "line: %s\nimpl : %s\nmodel: %s" % (c["line"][:2000], (ri or "")[:1000], (rm or "")[:1000])))
         else:
